@@ -9,6 +9,7 @@ import (
 	"sort"
 	"strings"
 	"sync"
+	"time"
 
 	"golang.org/x/tools/go/packages"
 	"golang.org/x/tools/go/ssa"
@@ -50,6 +51,16 @@ type Program struct {
 	samplesWanted int32
 	sampleMu  sync.Mutex
 	verbose   bool
+	pathLimit time.Duration
+	hardStop  time.Time
+}
+
+func (p *Program) pathDeadline() time.Time {
+	d := time.Now().Add(p.pathLimit)
+	if !p.hardStop.IsZero() && p.hardStop.Before(d) {
+		return p.hardStop
+	}
+	return d
 }
 
 type methKey struct {
